@@ -710,9 +710,7 @@ func trav(r *Run, focus string) {
 
 	// ---- main loop
 	budget := ch.Range(20, 400, "budget")
-	if r.YieldMode {
-		budget *= 12
-	}
+	budget *= 12
 	lateLeft := 0
 	if lateAdds {
 		lateLeft = 1 + ch.Intn(4, "late.n")
@@ -749,7 +747,7 @@ func trav(r *Run, focus string) {
 		tw.mu.Lock()
 		np, busy := len(tw.pending), tw.apiBusy
 		tw.mu.Unlock()
-		quiescent := np == 0 && busy == 0 && (!r.YieldMode || r.Sched.NumParked() == 0)
+		quiescent := np == 0 && busy == 0 && r.Sched.NumParked() == 0
 		{
 			// try to observe the stall
 			if !tw.stopCalled && stalledNow() {
